@@ -376,6 +376,65 @@ def make_graded_rod(interp, mixed, rng, nel=3, curved=False):
     return rod
 
 
+def nodal_history(ctx, rng, quats):
+    """nodal interpolation after element-wise post-processing: a fresh rod of every family is first asked element by element, with the element
+    number given, at both ends of every element (surface points, strains of displacement-based rods) -- at an interior knot the left element
+    sees its last node, the right one its first --, then the cross-sections at all nodal parameters must have the nodal position, orientation
+    and velocity; then the elements are asked again and must return their own end nodes."""
+    from cardillo.math import Exp_SO3_quat
+    n = 0
+    for interp_name, degree in (("Quaternion", 2), ("Quaternion", 1), ("R12", 2), ("SE3", 1)):
+        for mixed in (False, True):
+            name = f"{interp_name}[p={degree},mixed={mixed}]"
+            try:
+                rod = make_rod(interp_name, mixed, degree, rng)
+                q, u = rod_state(rod, rng, quats)
+                where = dict(rod=name, history="element-wise post-processing with explicit element numbers, then nodal parameters", q=q.tolist(), u=u.tolist())
+                p_ = rod.polynomial_degree_r
+                la_c = np.zeros(getattr(rod, "nla_c", 0))
+                ends = []
+                for el in range(rod.nelement):
+                    a, b = (float(x) for x in rod.element_interval(el))
+                    for xi, node in ((a, el * p_), (b, (el + 1) * p_)):
+                        ends.append((el, xi, node))
+                        if not mixed:
+                            rod.eval_strains(0.0, q, la_c, None, xi, el=el)
+                        rod.basis_functions_r(xi, el)          # what the export helpers (surface, surface_normal) evaluate first
+                Br = np.array([1.0, -2.0, 0.5])
+                worst, what = 0.0, ""
+                for node in range(rod.nnodes_r):
+                    el, a_ = divmod(node, p_)
+                    if el == rod.nelement:
+                        el, a_ = rod.nelement - 1, p_
+                    x0, x1 = (float(x) for x in rod.element_interval(el))
+                    xi = x0 if a_ == 0 else (x1 if a_ == p_ else x0 + a_ * (x1 - x0) / p_)
+                    qe = q[rod.local_qDOF_P(xi)]; ue = u[rod.local_uDOF_P(xi)]
+                    r_n = q[rod.nodalDOF_r[node]]; A_n = Exp_SO3_quat(q[rod.nodalDOF_p[node]], normalize=True)
+                    v_n = u[rod.nodalDOF_r_u[node]]; O_n = u[rod.nodalDOF_p_u[node]]
+                    v_c = v_n + A_n @ np.cross(O_n, Br)
+                    for nm, d in (("r_OP", np.abs(np.asarray(rod.r_OP(0.0, qe, xi)) - r_n).max()), ("A_IB", np.abs(np.asarray(rod.A_IB(0.0, qe, xi)) - A_n).max()),
+                                  ("v_P", np.abs(np.asarray(rod.v_P(0.0, qe, ue, xi, Br)) - v_c).max()),
+                                  ("J_P", np.abs(np.asarray(rod.J_P(0.0, qe, xi, Br)).reshape(3, -1) @ ue - v_c).max())):
+                        n += 1
+                        if not (d <= 1e-10) and not (d <= worst):
+                            worst, what = float(d), f"{nm} at the nodal parameter xi = {xi} of node {node} differs from the nodal value by {d:.3e}"
+                if what:
+                    ctx.violation(f"{name}:nodal-interpolation:after-elementwise-postprocessing", f"{what} at {where}", where)
+                    continue
+                # and the other way round: the elements asked again see their own end nodes
+                for el, xi, node in ends:
+                    N = np.asarray(rod.basis_functions_r(xi, el)[0]).ravel()
+                    expN = np.zeros(p_ + 1); expN[node - el * p_] = 1.0
+                    n += 1
+                    if N.shape != expN.shape or not (np.abs(N - expN).max() <= 1e-12):
+                        ctx.violation(f"{name}:basis_functions_r:element-end", f"basis_functions_r({xi}, el={el}) = {N.tolist()} does not select node {node} "
+                                      f"of the element at {where}", where)
+                        break
+            except Exception as ex:
+                ctx.violation(f"{name}:nodal-history:raises:{type(ex).__name__}", f"{type(ex).__name__}: {ex}", {"rod": name})
+    return n
+
+
 def se3_supplement(ctx, rng):
     """SE(3) interpolation (transcendental, outside the rational core): the cross-section Jacobians against central differences"""
     n = 0
@@ -500,6 +559,7 @@ def run(ctx):
                 except Exception as ex:
                     ctx.violation(f"{name}:raises:{type(ex).__name__}", f"{type(ex).__name__}: {ex}", {"rod": name})
     nse3 = se3_supplement(ctx, rng)
+    counts["nodal interpolation after element-wise post-processing"] = nodal_history(ctx, rng, quats)
     counts["graded rods (inertia)"] = ngraded
     counts["SE3 central differences"] = nse3
     if not records:
